@@ -251,6 +251,121 @@ def special_c18(res, tier, seed, workdir, stats):
     res.cov["allocating_ops_observed"] = total_allocs
 
 
+# ---------------------------------------------------------------- C03 / C04 (Miri)
+def run_miriwasm(cases, workdir, tag, shards=4, timeout=3600):
+    """real src/wasm.rs under Miri (wasm32-unknown-unknown, +simd128, no_std/no_main runner)"""
+    import concurrent.futures as cf
+    hh.ensure_repo_link()
+    cdir = os.path.join(hh.ROOT, "harness", "miriwasm")
+    lock = os.path.join(cdir, "Cargo.lock")
+    if not os.path.exists(lock):
+        shutil.copy(os.path.join(hh.REPO, "Cargo.lock"), lock)
+    n = len(cases)
+    shards = max(1, min(shards, n))
+    idx = [list(range(k, n, shards)) for k in range(shards)]
+
+    def one(k):
+        p = os.path.join(workdir, f"{tag}.wasm.{k}.ops")
+        hh.write_ops([cases[i] for i in idx[k]], p)
+        env = {"OPS_FILE": p, "CARGO_TARGET_DIR": os.path.join(hh.BUILD, f"t-miriwasm-{k}"), "MIRI_NO_STD": "1",
+               "RUSTFLAGS": "-Ctarget-feature=+simd128"}
+        return hh.sh(["cargo", "+nightly", "miri", "run", "--offline", "-q", "--target", "wasm32-unknown-unknown"], cwd=cdir, env=env, timeout=timeout)
+
+    outs = [None] * n
+    crashed = []
+    info = None
+    with cf.ThreadPoolExecutor(max_workers=shards) as ex:
+        for k, (rc, out, err) in enumerate(ex.map(one, range(shards))):
+            first = out.split("\n", 1)[0]
+            if first.startswith("cfg "):
+                d = dict(tok.split("=") for tok in first.split()[1:])
+                d["_line"] = first
+                info = d
+            per = hh.split_outputs(out, len(idx[k]))
+            for j, i in enumerate(idx[k]):
+                outs[i] = per[j]
+            if rc != 0:
+                crashed.append((k, rc, err[-3000:]))
+    return outs, crashed, info
+
+
+X86_CKPTS = None
+
+
+def gen_simd_target(sel, width_all=True):
+    """op stream for a back end that only runs under Miri: all 32 remainder lengths, all widths,
+    multi-packet inputs, chunkings, every cut, restore of checkpoints produced by other back ends
+    (given as literal bytes: portable on the same target) and edge-value lanes"""
+    def g(r, tier, info):
+        cases = []
+        lens = list(range(0, 34)) + [47, 48, 63, 64, 65, 96, 100] if tier == "quick" else list(range(0, 131)) + [160, 200, 255, 256, 257]
+        for n in lens:
+            key = rkey(r)
+            data = rbytes(r, n)
+            ws = (64, 128, 256) if (tier != "quick" or n % 3 == 0) else (r.choice((64, 128, 256)),)
+            b = B(f"{sel}-{n}", [f"len%32={n % 32}", sel])
+            for w in ws:
+                i = b.op(f"hash {sel} {w} {kstr(key)} {hexbytes(data)}")
+                j = b.op(f"hash portable {w} {kstr(key)} {hexbytes(data)}")
+                b.eq(i, j, f"{sel} result differs from portable")
+            # streamed + checkpoint bytes vs portable + cross restore at a cut
+            cut = r.randrange(0, n + 1)
+            b.op(f"new 0 {sel} {kstr(key)}")
+            b.op(f"new 1 portable {kstr(key)}")
+            for p in split_chunks(r, data[:cut], r.randrange(0, 3)):
+                b.op(f"append 0 {hexbytes(p)}")
+            b.op(f"append 1 {hexbytes(data[:cut])}")
+            c0 = b.op("ckpt 0")
+            c1 = b.op("ckpt 1")
+            b.eq(c0, c1, f"{sel} checkpoint bytes differ from portable's for the same stream")
+            b.op(f"restoreh 2 portable 0")      # portable restores the SIMD checkpoint
+            b.op(f"restoreh 3 {sel} 1")         # SIMD restores the portable checkpoint
+            for h in (0, 1, 2, 3):
+                b.op(f"append {h} {hexbytes(data[cut:])}")
+            w = r.choice((64, 128, 256))
+            f = [b.op(f"fin {h} {w}") for h in (0, 1, 2, 3)]
+            ref = b.op(f"hash portable {w} {kstr(key)} {hexbytes(data)}")
+            for x in f:
+                b.eq(x, ref, f"{sel}: result after cross-back-end checkpoint/restore differs from the uninterrupted hash")
+            cases.append(b)
+        for c in (0, 1, 31, 32, 33, 2**31, 2**32 - 1):
+            cases.append(gen.malformed(r, ["portable", sel, "auto"], count=c))
+        for _ in range(6 if tier == "quick" else 120):
+            cases.append(gen.malformed(r, ["portable", sel, "auto"]))
+            cases.append(gen.observers(r, [sel, "auto"]))
+            cases.append(gen.default_case(r, ["portable", sel, "auto"], std=False))
+        return cases
+    return g
+
+
+def special_c03(res, tier, seed, workdir, stats):
+    holder = {}
+
+    def ex(cases, tag):
+        outs, crashed, info = hh.run_miri("aarch64", cases, workdir, tag, shards=(hh.NPROC if tier == "thorough" else 6))
+        holder["info"] = info
+        return outs, crashed
+    info0 = {"arch": "aarch64", "std": "1", "_line": "cfg arch=aarch64 std=1 tf_sse41=0 tf_avx2=0 simd128=0 cpu_sse41=0 cpu_avx2=0"}
+    st = check_mod().run_config(res, "C03", tier, seed, "miri-aarch64", None, info0, workdir, gen_override=gen_simd_target("neon"), executor=ex, label="c03")
+    st["target_info"] = (holder.get("info") or {}).get("_line")
+    stats.append(st)
+    res.cov["interpreter"] = "cargo +nightly miri run --target aarch64-unknown-linux-gnu (real src/aarch64.rs; ushl.v4i32 shim in the runner)"
+
+
+def special_c04(res, tier, seed, workdir, stats):
+    holder = {}
+
+    def ex(cases, tag):
+        outs, crashed, info = run_miriwasm(cases, workdir, tag, shards=(hh.NPROC if tier == "thorough" else 6))
+        holder["info"] = info
+        return outs, crashed
+    info0 = {"arch": "wasm32", "std": "0", "simd128": "1", "_line": "cfg arch=wasm32 std=0 tf_sse41=0 tf_avx2=0 simd128=1 cpu_sse41=0 cpu_avx2=0"}
+    st = check_mod().run_config(res, "C04", tier, seed, "miri-wasm32-simd128", None, info0, workdir, gen_override=gen_simd_target("wasm"), executor=ex, label="c04")
+    st["target_info"] = (holder.get("info") or {}).get("_line")
+    stats.append(st)
+    res.cov["interpreter"] = "MIRI_NO_STD=1 cargo +nightly miri run --target wasm32-unknown-unknown -Ctarget-feature=+simd128 (real src/wasm.rs)"
+
+
 # ---------------------------------------------------------------- C08
 def special_c08(res, tier, seed, workdir, stats):
     """static release claim: the #[no_panic] wrappers around every public operation must link"""
@@ -287,4 +402,4 @@ def check_mod():
 
 
 T.PRE.update({"C16": pre_facts, "C17": pre_facts, "C18": pre_facts, "C15": pre_facts})
-T.SPECIAL.update({"C08": special_c08, "C16": special_c16, "C17": special_c17, "C18": special_c18})
+T.SPECIAL.update({"C03": special_c03, "C04": special_c04, "C08": special_c08, "C16": special_c16, "C17": special_c17, "C18": special_c18})
